@@ -9,6 +9,7 @@ import (
 	"io"
 	"net"
 	"net/http"
+	"strings"
 	"time"
 
 	"github.com/cbeuw/Cloak/internal/common"
@@ -219,7 +220,9 @@ func dispatchConnection(conn net.Conn, sta *State) {
 		return
 	}
 
-	if _, ok := sta.ProxyBook[ci.ProxyMethod]; !ok {
+	// parseProxyBook stores the names in lower case: look them up the same way, so that a ProxyMethod written
+	// exactly like its ProxyBook entry (in any case) is found
+	if _, ok := sta.ProxyBook[strings.ToLower(ci.ProxyMethod)]; !ok {
 		log.WithFields(log.Fields{
 			"remoteAddr":       conn.RemoteAddr(),
 			"UID":              b64(ci.UID),
@@ -297,7 +300,7 @@ func serveSession(sesh *mux.Session, ci ClientInfo, user *ActiveUser, sta *State
 				continue
 			}
 		}
-		proxyAddr := sta.ProxyBook[ci.ProxyMethod]
+		proxyAddr := sta.ProxyBook[strings.ToLower(ci.ProxyMethod)]
 		localConn, err := sta.ProxyDialer.Dial(proxyAddr.Network(), proxyAddr.String())
 		if err != nil {
 			log.Errorf("Failed to connect to %v: %v", ci.ProxyMethod, err)
